@@ -21,7 +21,7 @@ From SCC Require Import Sem.FsFrag2 Proof.ShrinkExample2 Proof.ShrinkTyTop.
 From SCC Require Import Model.Fun2CoreTyGuard Proof.Fun2CoreTyRefute Proof.Fun2CoreTyChecked.
 From SCC Require Proof.CheckFixed.
 From SCC Require Import Model.Uniquify Model.FocusTyGuard Proof.Fun2CoreProof Proof.Fun2CoreExamples Proof.Fun2CoreTyProg Proof.Fun2CoreTyTotal
-     Proof.Fun2CoreIds Proof.UqTyTop Proof.FocusTyTop Proof.FocusNamesTop Proof.WtPipeline Proof.WtExamples2.
+     Proof.Fun2CoreIds Proof.UqTyTop Proof.FocusTyTop Proof.FocusNamesTop Proof.WtPipeline Proof.WtExamples2 Proof.WtExamples3.
 Import ListNotations.
 
 (* ======================================================================================== *)
@@ -29,15 +29,16 @@ Import ListNotations.
 (* ======================================================================================== *)
 
 (* Fun -> Core, as the property words it (every accepted program).  FALSE of the faithful model: before fix
-   d5d4151 by variable capture (C12_fun2core_typing_refuted_before_fix), and still by a call of `main`
-   (C12_fun2core_call_main_typing_refuted). *)
+   d5d4151 by variable capture (C12_fun2core_typing_refuted_before_fix), and before fix f929eb7 by a call of `main`
+   (C12_fun2core_call_main_typing_refuted_before_fix). *)
 Definition fun2core_preserves_typing_unguarded : Prop :=
   forall src p, Check.check src = COk p ->
   exists c, compile_prog p = Fun2Core.Ok c /\ wt_core c = true.
 (* the guarded form of round 1: binders of each definition pairwise distinct and distinct from
    its parameters (no shadowing, so the capture defect of fun2core cannot strike).  It is hypothesis
-   H_fun2core_wt of C12_pipeline_wt_partial.  Round 2: FALSE as it stands (C12_fun2core_call_main_typing_refuted:
-   a call of `main` is accepted and satisfies barendregt; until fix 5b8c76f of /repo also a `main` of a non-integer
+   H_fun2core_wt of C12_pipeline_wt_partial.  Round 2: it was FALSE as it stands of the compiler before the fixes
+   (C12_fun2core_call_main_typing_refuted_before_fix: a call of `main` is accepted and satisfies barendregt, until fix
+   f929eb7 of /repo its translation was ill typed; until fix 5b8c76f also a `main` of a non-integer
    type: C12_regression_old_check_main_result); PROVED inside
    the boolean guard prog_tyguard (C12_fun2core_preserves_typing_fragment2 + C12_fun2core_total_fragment2 +
    C12_fun2core_pre_check). *)
@@ -132,7 +133,7 @@ Theorem C12_fun2core_call_main_typing_refuted_before_fix :
     has_type_b src = true /\ Check.check src = COk p /\ annotated_fcprog p = true /\
     compile_prog_before_fix p = Fun2Core.Ok c /\ wt_core c = false /\
     shadowing_risk_prog p = false /\ calls_main_prog p = true /\ barendregt p = true /\
-    prog_tyguard p = false.
+    prog_tyguard p = true.      (* the guard has no call-of-main exclusion any more: the witness is INSIDE *)
 Proof. exact fun2core_call_main_typing_refuted_before_fix_lemma. Qed.
 Print Assumptions C12_fun2core_call_main_typing_refuted_before_fix.
 Theorem C12_call_main_typing_witness_fixed :
@@ -160,8 +161,12 @@ Print Assumptions C12_fun2core_preserves_typing_refuted_before_fix.
           the former finding capture-under-binder; the repaired translation never places a continuation under a let
           variable / clause parameter whose name is free in it - it names the continuation first -, and the proof follows
           it: lemma tw_guard of Proof/Fun2CoreTyMain.v, KT_rebind of Proof/Fun2CoreTyShare.v; shadowing is allowed);
-     no call of `main` (known finding call-to-main);  the body of `main` has type i64 (for a program that comes out of
-          the checker this clause is implied since fix 5b8c76f: C12_fun2core_preserves_typing_checked below);
+     (NO call-of-main exclusion: until fix f929eb7 of /repo the guard contained NOT calls_main_prog and the call clause of
+          tg excluded the callee `main` - former finding call-to-main; the repaired translation compiles a called main
+          with a return continuation and starts at a fresh entry point  def main<n>(params) { main(params, mu~x. exit x) },
+          and the proof follows it: Proof/Fun2CoreTyEntry.v entry_tg, Proof/Fun2CoreTyProg.v main_group_typed);
+     the body of `main` has type i64, and when main is called its declared return type is i64 (for a program that comes
+          out of the checker both clauses are implied since fix 5b8c76f: C12_fun2core_preserves_typing_checked below);
      parameters pairwise distinct and of declared types;
    and for the program: type names pairwise distinct and different from _Cont, xtor names distinct within a type,
    definition names distinct (what check_core asks of declarations).
@@ -225,18 +230,58 @@ Print Assumptions C12_fun2core_pre_check.
 (* non-vacuity: the five multi-definition programs of Proof/Fun2CoreExamples.v (recursion; shared continuations -
    at least two share_ definitions; data with case; labels/goto and a label passed as consumer argument; codata
    with `new`, destructors and by-name values) satisfy the guard; the conclusion and the side conditions of the
-   focusing theorem are evaluated too.  The witnesses of the finding call-to-main and of the former finding
-   main-non-integer-result are outside the guard; the two capture witnesses (former finding capture-under-binder, repaired by
+   focusing theorem are evaluated too.  The witness of the former finding
+   main-non-integer-result is outside the guard; the witness of the former finding call-to-main (repaired by f929eb7; the
+   guard has no call-of-main exclusion any more) is INSIDE although [calls_main_prog] fires on it; the two capture
+   witnesses (former finding capture-under-binder, repaired by
    d5d4151; the guard has no capture clause any more) are INSIDE although [shadowing_risk_prog] fires on them. *)
 Theorem C12_fun2core_fragment2_examples :
   (f2c_ok ex_calls = true /\ f2c_ok ex_shared = true /\ f2c_ok ex_data = true /\ f2c_ok ex_labels = true /\ f2c_ok ex_codata = true) /\
   (2 <= List.length (cpdefs (compiled_or_empty ex_shared)) - 2)%nat /\
-  (prog_tyguard call_main_witness = false /\ prog_tyguard main_nonint_witness = false /\
+  ((prog_tyguard call_main_witness = true /\ calls_main_prog call_main_witness = true /\ f2c_ok call_main_witness = true) /\
+   prog_tyguard main_nonint_witness = false /\
    (prog_tyguard capture_witness = true /\ shadowing_risk_prog capture_witness = true /\ f2c_ok capture_witness = true) /\
    (prog_tyguard WtDefs.capture_typing_witness = true /\ shadowing_risk_prog WtDefs.capture_typing_witness = true /\
     f2c_ok WtDefs.capture_typing_witness = true)).
 Proof. exact (conj f2c_examples_ok (conj shared_example_lifts guard_on_witnesses)). Qed.
 Print Assumptions C12_fun2core_fragment2_examples.
+
+(* CALLS OF MAIN ARE INSIDE THE GUARDS (fix f929eb7).  The two witnesses of the former finding call-to-main,
+   corpus/fun/call_main_nontail.sc and corpus/fun/call_main_tail.sc as the checker annotates them (they are outputs of
+   the model of the checker: C12_call_main_witnesses_checked), call main and satisfy prog_tyguard, prog_tyguard_src and
+   xtor_tys_guard; the conclusions of the fun2core and of the focusing theorem are evaluated on them (f2c_ok, focus_ok);
+   by the THEOREMS their translations exist and are well typed; the translation starts with the entry point main0 (main's
+   parameters, no continuation) followed by main with a return continuation.  The guarded statement was FALSE of the
+   translation before the fix. *)
+Theorem C12_call_main_witnesses_checked :
+  Check.check call_main_source = COk call_main_witness /\ Check.check call_main_tail_source = COk call_main_tail_witness.
+Proof. exact call_main_witnesses_checked. Qed.
+Print Assumptions C12_call_main_witnesses_checked.
+Theorem C12_call_main_witnesses_in_guard :
+  forallb (fun p => calls_main_prog p && prog_tyguard p && prog_tyguard_src p && xtor_tys_guard p && f2c_ok p && focus_ok p)
+          [call_main_witness; call_main_tail_witness] = true.
+Proof. exact call_main_witnesses_in_guard. Qed.
+Print Assumptions C12_call_main_witnesses_in_guard.
+Theorem C12_call_main_witnesses_typed : forall p, In p [call_main_witness; call_main_tail_witness] ->
+  exists c, compile_prog p = Fun2Core.Ok c /\ wt_core c = true.
+Proof. exact call_main_witnesses_typed. Qed.
+Print Assumptions C12_call_main_witnesses_typed.
+Theorem C12_call_main_witness_entry :
+  match compile_prog call_main_witness with
+  | Fun2Core.Ok c =>
+      match cpdefs c with
+      | e :: m :: _ => cident_eqb (cdname e) (new_id "main0") && cident_eqb (cdname m) (new_id "main")
+                       && Nat.eqb (List.length (cdctx e)) 1 && Nat.eqb (List.length (cdctx m)) 2
+      | _ => false
+      end
+  | Fun2Core.Err _ => false
+  end = true.
+Proof. exact call_main_witness_entry. Qed.
+Print Assumptions C12_call_main_witness_entry.
+Theorem C12_fun2core_fragment2_refuted_before_fix :
+  ~ (forall p c, prog_tyguard p = true -> compile_prog_before_fix p = Fun2Core.Ok c -> wt_core c = true).
+Proof. exact fun2core_guarded_typing_refuted_before_fix. Qed.
+Print Assumptions C12_fun2core_fragment2_refuted_before_fix.
 
 
 (* ======================================================================================== *)
@@ -542,7 +587,7 @@ Print Assumptions C12_pipeline_wt.
    (compiled) xtors are declared.  It is not implied by acceptance: the real checker's output is not closed under the
    types it mentions (C15: a never-used xtor can carry a field of a never-declared type), and such programs are outside
    (tag pipe-noguard:xtor-types).  So: for every annotated checked program that is well typed in the boolean sense of
-   tg, does not call main, has an integer main and declared field types, ALL stages succeed, every
+   tg, has an integer main and declared field types (calls of main allowed since fix f929eb7), ALL stages succeed, every
    intermediate program is well-scoped and well-typed in its own language, and the three code generators return Ok
    within their documented capacities. *)
 Theorem C12_pipeline_wt_source : forall p,
@@ -580,6 +625,11 @@ Theorem C12_pipeline_wt_source_examples :
   forallb (fun p => prog_tyguard p && xtor_tys_guard p) [ex_calls; ex_shared; ex_data; ex_labels; ex_codata] = true.
 Proof. vm_compute. reflexivity. Qed.
 Print Assumptions C12_pipeline_wt_source_examples.
+(* ... and so do the two programs that call main (former finding call-to-main) *)
+Theorem C12_pipeline_wt_source_call_main_examples :
+  forallb (fun p => calls_main_prog p && prog_tyguard p && xtor_tys_guard p) [call_main_witness; call_main_tail_witness] = true.
+Proof. vm_compute. reflexivity. Qed.
+Print Assumptions C12_pipeline_wt_source_call_main_examples.
 
 (* the hypotheses are the statements above *)
 Theorem C12_hypotheses_are_the_statements :
